@@ -11,12 +11,13 @@ def make_batches(pid, n_quick, n_thorough, n_ops=(6, 12)):
         for i in range(n):
             want_clean = rng.random() < 0.9
             for _try in range(60):
-                c = dsgcase.gen_sel(rng, max_nodes=10, max_choices=3, cons_prob=0.1)
+                c = (dsgcase.gen_layered(rng) if (i % 3) == 2 else
+                     dsgcase.gen_sel(rng, max_nodes=10, max_choices=3, cons_prob=0.1))
                 if (not want_clean or not dsgcase.guards(c)) and len(c['sel']) >= 1:
                     break
             c = procdrive.decorate(rng, c, n_dv=(0, 2))
             c['_i'] = i
-            c['_kind'] = ['complete', 'complete', 'fast'][i % 3]
+            c['_kind'] = ['complete', 'complete', 'fast', 'complete'][i % 4]
             c['_nops'] = rng.randint(*n_ops)
             cases.append(c)
         yield 'g-ops', cases
